@@ -790,6 +790,16 @@ class Ctx:
             return True
         return Congr(self.Forall(lo, hi, lambda k: to_real(f(k)) == to_real(g(k))), self.Sum(lo, hi, f) == self.Sum(lo, hi, g), given)
 
+    def sum_between(self, lo, hi, f, L, H, given=None):
+        """bounding step of a hint chain: from  forall k in [lo,hi): L <= f(k) <= H  (an obligation) conclude
+        lo <= hi  ==>  (hi-lo) L <= Sum(lo,hi,f) <= (hi-lo) H.  The rule is lemma `sum_between` (contracts/kernels.py)."""
+        if self.mode != 'sym':
+            return True
+        S = self.Sum(lo, hi, f)
+        n = to_real(to_int(hi) - to_int(lo))
+        return Congr(self.Forall(lo, hi, lambda k: z3.And(to_real(L) <= to_real(f(k)), to_real(f(k)) <= to_real(H))),
+                     z3.Implies(to_int(lo) <= to_int(hi), z3.And(n * to_real(L) <= S, S <= n * to_real(H))), given)
+
     def pure_ground(self, goal, *hyps):
         return Pure(goal, hyps, ground=True) if self.mode == 'sym' else goal
 
